@@ -78,6 +78,31 @@ EndStep(e) ==
      /\ ls' = IF ok THEN now ELSE ls
      /\ UNCHANGED now
 
+\* first half of an opening transition (the driver parked the caller at the clock read inside transitionTo(Open)):
+\* the outcome is recorded, the breaker must still show its old state
+EndMidStep(e) ==
+  LET ok == e.out = "ok"
+      a1 == AAdd(aw, now, ok)
+  IN /\ Report("endmid.state", mst, e.st)
+     /\ Report("endmid.trips", TRUE, Tripped(ASucc(a1), AFail(a1)) /\ mst # "open")
+     /\ aw' = a1
+     /\ lf' = IF ~ok THEN now ELSE lf
+     /\ ls' = IF ok THEN now ELSE ls
+     /\ UNCHANGED <<now, mst, mou, holders>>
+
+\* second half: the deadline and the state are stored, the call returns
+EndFinStep(e) ==
+  LET ok == e.out = "ok" IN
+  /\ Report("end.state", "open", e.st)
+  /\ Report("end.err", IF ok THEN "nil" ELSE e.out, e.err)
+  /\ Report("end.fallback", e.fb /\ ~ok, e.fbc)
+  /\ Report("end.val", IF ok THEN "v:" \o e.c ELSE FailVal(e), e.val)
+  /\ Report("end.fberr", IF e.fbc THEN e.err ELSE "", e.fberr)
+  /\ mst' = "open"
+  /\ mou' = IF mst # "open" THEN now + OpenTO ELSE mou
+  /\ holders' = holders \ {e.c}
+  /\ UNCHANGED <<now, aw, lf, ls>>
+
 MetricsStep(e) ==
   LET o == AObserve(aw, now)
       s == ASucc(o)
@@ -116,6 +141,8 @@ Step ==
                               /\ UNCHANGED <<mst, mou, aw, holders, lf, ls>>
        [] e.op = "Begin"   -> BeginStep(e)
        [] e.op = "End"     -> EndStep(e)
+       [] e.op = "EndMid"  -> EndMidStep(e)
+       [] e.op = "EndFin"  -> EndFinStep(e)
        [] e.op = "Metrics" -> MetricsStep(e)
        [] e.op = "Pre"     -> PreStep(e)
        [] OTHER            -> UNCHANGED mvars
